@@ -298,6 +298,28 @@ func (c *fakeClient2) doLevel2(input proto.Input) Ev2 {
 }
 
 // the events of level 2 are kept in bench.events as Ev with the Ev2 payload smuggled in L2
+// take2raw: the events in the order they were logged
+func (b *bench2) take2raw() []Ev2 {
+	b.mu.Lock()
+	evs := b.events
+	b.events = nil
+	b.mu.Unlock()
+	out := make([]Ev2, 0, len(evs))
+	for _, e := range evs {
+		switch e.T {
+		case "send":
+			x := *e.L2
+			x.S = e.S
+			out = append(out, x)
+		case "answer":
+			out = append(out, Ev2{T: "answer", H: e.P, Ok: e.Ok, Status: int(e.S)})
+		default:
+			out = append(out, Ev2{T: e.T, S: e.S, Ok: e.Ok})
+		}
+	}
+	return out
+}
+
 func (b *bench2) take2() []Ev2 {
 	b.mu.Lock()
 	evs := b.events
